@@ -585,3 +585,49 @@ Proof.
   - intros j A Y i X A' HR Hlt Hle Hel Hpl Hne. now apply (HL j A Y i X A').
 Qed.
 End Dom.
+
+(* ---------------------------------------------------------------------------------------------- *)
+(* 6. completeness of last_check                                                                   *)
+
+Section LastCheck.
+Variables (alts : list N) (votes : list (list N)).
+Hypothesis Hvotes : forall v, In v votes -> NoDup v /\ incl alts v.
+
+Lemma last_check_complete Y U x1 x2 : incl U alts -> incl Y alts ->
+  isbottom votes U x1 -> isbottom votes U x2 ->
+  (Y = [] \/ forall v, In v votes -> exists y, In y Y /\ forall u, In u U -> rk v u < rk v y) ->
+  last_check votes Y x1 x2 = true.
+Proof.
+  intros HU HY (v1 & Hv1 & B1) (v2 & Hv2 & B2) Hprev. unfold last_check.
+  set (restr := [x1; x2] ++ Y).
+  assert (Hx1U : In x1 U) by apply B1. assert (Hx2U : In x2 U) by apply B2.
+  apply andb_true_iff. split.
+  - apply negb_true_iff, orb_false_iff.
+    assert (G : forall x, In x U -> memN x (flat_map (fun v => last_opt (filter (fun a => memN a restr) v)) votes) && negb (is_nil Y) = false).
+    { intros x Hx. destruct Hprev as [->|Hprev]; [apply andb_false_r|].
+      destruct (memN x _) eqn:E; [exfalso|reflexivity]. apply memN_last_opt in E. destruct E as (v & Hv & Hne & Ex).
+      destruct (Hvotes v Hv) as [Nv Iv]. destruct (Hprev v Hv) as (y & Hy & Hlow).
+      assert (Fy : memN y restr = true) by (apply memN_In; unfold restr; apply in_or_app; now right).
+      destruct (last_filter_max v (fun a => memN a restr) 0%N Nv y (Iv y (HY y Hy)) Fy) as (_ & _ & Hle).
+      rewrite <- Ex in Hle. specialize (Hlow x Hx). lia. }
+    split; apply G; assumption.
+  - assert (G : forall x x' v, In v votes -> bottom_in v U x -> In x' U -> (x = x1 \/ x = x2) -> (x' = x1 \/ x' = x2) ->
+                (forall z, z = x1 \/ z = x2 -> z = x \/ z = x') ->
+                memN x (flat_map (fun v => last_opt (filter (fun a => memN a [x1; x2]) (filter (fun a => memN a restr) v))) votes) = true).
+    { intros x x' v Hv [HxU Hb] Hx'U Hx Hx' Hcov. apply memN_last_opt. exists v. split; [assumption|].
+      destruct (Hvotes v Hv) as [Nv Iv]. rewrite filter_filter_and.
+      set (f := fun a => memN a restr && memN a [x1; x2]).
+      assert (Fx : f x = true).
+      { unfold f, restr. apply andb_true_iff. split; apply memN_In; simpl; destruct Hx as [-> | ->]; auto. }
+      destruct (last_filter_max v f 0%N Nv x (Iv x (HU x HxU)) Fx) as (E1 & E2 & E3). split.
+      - intros E. assert (In x (filter f v)) by (apply filter_In; split; [apply Iv, HU|]; assumption). rewrite E in H. contradiction.
+      - set (e := last (filter f v) 0%N) in *. unfold f in E2. apply andb_true_iff in E2. destruct E2 as [_ E2].
+        apply memN_In in E2. simpl in E2.
+        assert (He : e = x \/ e = x') by (apply Hcov; destruct E2 as [E2|[E2|[]]]; auto).
+        destruct He as [He|He]; [now symmetry|]. destruct (N.eq_dec e x) as [|Hne]; [now symmetry|exfalso].
+        assert (rk v e < rk v x) by (apply Hb; [rewrite He; assumption|assumption]). lia. }
+    apply andb_true_iff. split.
+    + apply (G x1 x2 v1 Hv1 B1 Hx2U); auto; intros z [-> | ->]; auto.
+    + apply (G x2 x1 v2 Hv2 B2 Hx1U); auto; intros z [-> | ->]; auto.
+Qed.
+End LastCheck.
